@@ -866,10 +866,11 @@ def run(ctx) -> dict:
             'yielding; the traversal generators emit attribute/namespace nodes independently of '
             'the children of an element.',
         'not_decided':
-            'One node per XML construct, parent/children consistency, string values, and the '
-            'is/<</>> operators. Observation (not claimed): with a schema, defaulted attributes '
-            'all receive position + len(attrib), i.e. the position of the element\'s first '
-            'child; schema-typed trees are outside C02\'s quantifier.',
+            'One node per XML construct, parent/children consistency and the is/<</>> operators. '
+            'String values: only the order clause is decided (a tail comes after the descendants; 2 '
+            'known findings pinned by the suite). Observation (not claimed): with a schema, '
+            'defaulted attributes all receive position + len(attrib), i.e. the position of the '
+            'element\'s first child; schema-typed trees are outside C02\'s quantifier.',
         'assumptions': ['len(x) with x ending in nsmap/namespaces is N, containing attrib is A',
                         'idioms of the lazy readers as enumerated in the rule module'],
     }
